@@ -433,6 +433,14 @@ def call_builtin(I, name, args, kwargs):
             p = I.heap[a.oid]
             return forall_index(I, "all#%d" % a.oid, z3.IntVal(0), p["len"], lambda i: tobool(p["at"](i)))
         raise Unsupported("np.all(%r)" % (a,))
+    if name in ("np.any", "numpy.any"):
+        a = args[0]
+        if isinstance(a, bool) or is_symbool(a):
+            return a
+        if _is_arr(I, a):
+            p = I.heap[a.oid]
+            return z3.Not(forall_index(I, "none#%d" % a.oid, z3.IntVal(0), p["len"], lambda i: z3.Not(tobool(p["at"](i)))))
+        raise Unsupported("np.any(%r)" % (a,))
     if name in ("np.asarray", "numpy.asarray", "np.array", "numpy.array"):
         a = args[0]
         if _is_arr(I, a):
